@@ -101,9 +101,14 @@ class StringContainsToConcat:
         return node.has_ident() and node.get_ident() == 'str.contains'
 
     def global_mutations(self, node, input_):
+        if len(node) != 3:
+            return []
         var = node[1]
-        k1 = f'{var}_prefix'
-        k2 = f'{var}_suffix'
+        # the new variables must be fresh, single symbols
+        k1 = derive_symbol(var, suffix='_prefix')
+        k2 = derive_symbol(var, suffix='_suffix')
+        if k1 is None or k2 is None:
+            return []
         vars = [
             Node('declare-const', k1, 'String'),
             Node('declare-const', k2, 'String'),
